@@ -66,9 +66,8 @@ func (g *generatorContext) parseType(t reflect.Type) (_ node, returnedError erro
 		}
 		return n, nil
 	}
-	if t.Implements(parseableType) {
-		return &parseable{t.Elem()}, nil
-	}
+	// The method set of *T includes that of T, so this also covers value receivers. Interface types are
+	// excluded (a pointer to an interface has no methods): there is no concrete type to instantiate.
 	if reflect.PtrTo(t).Implements(parseableType) {
 		return &parseable{t}, nil
 	}
